@@ -9,6 +9,7 @@ from driver import Undecided, VERIF, WORK
 
 import interp
 import codec
+import disasm
 
 MACHINERY_FILES = ('src/spec.rs', 'contract.rs', 'src/shadow.rs', 'src/x86.rs')
 
@@ -167,6 +168,7 @@ UNITS = {
     'interp': dict(run=kani_unit(interp.generate, harness_file='src/interpreter/harnesses.rs'),
                    witness=None),
     'codec': dict(run=kani_unit(codec.generate, harness_file='src/lib.rs')),
+    'disasm': dict(run=kani_unit(disasm.generate, harness_file='src/disassembler/harnesses.rs')),
 }
 
 
